@@ -744,6 +744,12 @@ func (fv *FV) callByContract(st *State, fc *FuncContract, pc *PkgContracts, osig
 		t := fv.resolveType(&Env{fv: fv, st: st, pc: pc}, g.Type)
 		s := fv.sortOf(t)
 		env.names[g.Name] = Term{S: fv.fresh(name+"."+g.Name, s), Sort: s, T: t}
+		// visible to the caller's contract as <callee>_<name> (the value of the most recent call)
+		short := name
+		if k := strings.LastIndex(short, "."); k >= 0 {
+			short = short[k+1:]
+		}
+		st.ghost[short+"_"+g.Name] = env.names[g.Name]
 	}
 	penv := &Env{fv: fv, st: st, old: pre, names: env.names, pc: pc, results: results, roles: fc.Roles, tsubst: env.tsubst}
 	for _, e := range fc.Ensures {
